@@ -51,6 +51,8 @@ def _both_empty(scn):
 
 def valid(scn):
     """scenarios the generators / the shrinker may produce (documented preconditions of the users)"""
+    if scn["kind"] == "bigmerge":
+        return len(scn["a"]) >= 1 and len(scn["b"]) >= 1
     if scn["kind"] == "timeseries":
         # cmb_timeseries_finalize / _summarize require a non-empty series; time stamps must not decrease (asserted)
         ts = [t for _, t in scn["xts"]] + [scn["tend"]]
@@ -96,6 +98,8 @@ def _lists_of(scn):
         return [scn["xs"]]
     if k == "timeseries":
         return [scn["xts"]]
+    if k == "bigmerge":
+        return [scn["a"], scn["b"]]
     if k in ("wseq", "wscale", "wzero"):
         return [scn["xws"]]
     return list(scn["parts"]) + [scn.setdefault("then", [])]
@@ -152,6 +156,16 @@ def shrink(scn, fails):
                     if fails(t):
                         cur, changed = t, True
                         break
+        if cur["kind"] == "bigmerge":
+            for key in ("ka", "kb"):
+                while cur[key] > 0 and budget > 0:
+                    t = copy.deepcopy(cur)
+                    t[key] -= 1
+                    budget -= 1
+                    if fails(t):
+                        cur, changed = t, True
+                    else:
+                        break
         if cur["kind"] == "wscale" and cur["c"] != 10.0:
             t = copy.deepcopy(cur)
             t["c"] = 10.0
@@ -192,7 +206,7 @@ def run(chk):
     impl = vlib.build_impl("rel")
     chk.cov["trusted_base"] = TRUSTED
     chk.assumptions += ["samples are finite doubles (|x| <= DBL_MAX), weights are >= 0 (the library asserts it)",
-                        "fewer than 2^53 samples per summary",
+                        "the merged count stays below 2^63 (sums of counts do not wrap; a product of counts is modelled WITH C's wrap-around); (double)count is exact for the counts used (k*2^j), beyond 2^53 in general it is part of 'up to rounding'",
                         "skewness / kurtosis of constant data are undefined (0/0): the library returns NaN there, and the "
                         "generated definedness predicate is false exactly there (theorem kurtosis_undefined_iff_constant)"]
     known_ids = {k.get("id") for k in chk.known}
@@ -271,6 +285,8 @@ def run(chk):
         "ill_conditioned_statistics_skipped": ill, "corpus": len(cres),
         "merge_with_an_empty_operand": sum(1 for s, _, _ in results if s["kind"] in ("merge", "wmerge") and any(len(p) == 0 for p in s["parts"])),
         "merge_with_both_empty": sum(1 for s, _, _ in results if _both_empty(s)),
+        "merged_counts_product_at_least_2^64": sum(1 for s, _, _ in results if s["kind"] == "bigmerge" and
+                                                    len(s["a"]) * 2 ** s["ka"] * len(s["b"]) * 2 ** s["kb"] >= 2 ** 64),
         "weights_tiny_in_absolute_terms": sum(1 for s, _, _ in results if _tiny_unit(s)),
         "time_series_in_a_tiny_time_unit": sum(1 for s, _, _ in results if s["kind"] == "timeseries" and 0 < s["tend"] < 1e-12),
     }
@@ -295,7 +311,8 @@ def run(chk):
         if hit:
             continue
         wsm = s["kind"] == "selfmerge" and bool(s.get("weighted"))
-        g = ("merge of unweighted summaries" if s["kind"] == "merge" or (s["kind"] == "selfmerge" and not wsm) else
+        g = ("merge of summaries holding billions of samples" if s["kind"] == "bigmerge" else
+             "merge of unweighted summaries" if s["kind"] == "merge" or (s["kind"] == "selfmerge" and not wsm) else
              "unweighted summary" if s["kind"] in ("seq", "dataset") else
              "merge of weighted summaries" if s["kind"] == "wmerge" or wsm else
              "weights rescaled" if s["kind"] == "wscale" else
